@@ -199,7 +199,7 @@ func sessionEngines(t *tape.Tape, fill bool) *core.RunResult {
 			}
 			var run []*Task
 			for _, x := range ps {
-				if x.Point == "engine.lock" && k.LockHeld() {
+				if !k.Runnable(x) {
 					continue
 				}
 				if len(x.Point) > 5 && x.Point[len(x.Point)-5:] == ".done" {
@@ -331,7 +331,7 @@ func sessionEngines(t *tape.Tape, fill bool) *core.RunResult {
 		if pend == nil {
 			break
 		}
-		if pend.Point == "engine.lock" && k.LockHeld() {
+		if !k.Runnable(pend) {
 			break
 		}
 		k.Release(pend, 0)
